@@ -7,9 +7,14 @@ package main
 import (
 	"bytes"
 	"fmt"
+	"math"
 	"sort"
+	"strings"
 	"time"
 
+	"go.minekube.com/brigodier"
+	"go.minekube.com/gate/pkg/edition/java/proto/packet"
+	"go.minekube.com/gate/pkg/edition/java/proto/packet/brigadier"
 	"go.minekube.com/gate/pkg/gate/proto"
 
 	"verifharness/c04/pk"
@@ -95,6 +100,7 @@ func main() {
 			}
 		}
 	}
+	numberBounds(run)
 	// collections around the readers' pre-allocation cap (32768): exactly at it, one above, well above — on the last
 	// (thorough: also the first) protocol each array-carrying type is registered for
 	bigN := 0
@@ -171,7 +177,19 @@ func one(run *hx.Run, g *pk.G, e pk.Entry, encErr *int) string {
 		valid = 1
 	}
 	if valid == 1 {
-		run.Case(e.Name+"/gort", "gort "+ctxStr(e), res)
+		gop := "gort " + ctxStr(e)
+		if ac, ok := p.(*packet.AvailableCommands); ok {
+			// a type without a schema whose values are comparable directly: the decoded tree must equal the ORIGINAL one
+			// (argument properties bit-exact); the original tree is on the case line as the concrete input
+			orig := pk.DumpCommands(ac.RootNode)
+			if g.Big == 0 {
+				gop += " " + orig
+			}
+			if strings.HasPrefix(res, "ok") {
+				res += fmt.Sprintf(" orig=%d", b2i(a != nil && orig == pk.DumpCommands(a.(*packet.AvailableCommands).RootNode)))
+			}
+		}
+		run.Case(e.Name+"/gort", gop, res)
 	}
 	if cl == "unmodelled" {
 		return ""
@@ -203,3 +221,60 @@ func b2i(b bool) int {
 }
 
 var _ = proto.ClientBound
+
+// numberBounds drives the four brigadier number-argument property codecs directly with every pair of boundary bounds
+// (sentinels, beyond the sentinels, ±Inf, NaN, -0, subnormals): `nb <kind> <min> <max>` (floats as unsigned bit patterns).
+func numberBounds(run *hx.Run) {
+	run.Case("nbconst", fmt.Sprintf("nbconst f32 %d %d", math.Float32bits(brigodier.MinFloat32), math.Float32bits(brigodier.MaxFloat32)), "ok")
+	run.Case("nbconst", fmt.Sprintf("nbconst f64 %d %d", math.Float64bits(brigodier.MinFloat64), uint64(math.Float64bits(brigodier.MaxFloat64))), "ok")
+	run.Case("nbconst", fmt.Sprintf("nbconst i32 %d %d", int64(brigodier.MinInt32), int64(brigodier.MaxInt32)), "ok")
+	run.Case("nbconst", fmt.Sprintf("nbconst i64 %d %d", int64(brigodier.MinInt64), int64(brigodier.MaxInt64)), "ok")
+	pv := proto.Protocol(767)
+	emit := func(kind, mn, mx string, codec brigadier.ArgumentPropertyCodec, v any, show func(any) string) {
+		out := hx.Guard(5*time.Second, func() string {
+			var buf bytes.Buffer
+			if err := codec.Encode(&buf, v, pv); err != nil {
+				return "err-enc"
+			}
+			enc := append([]byte(nil), buf.Bytes()...)
+			d, err := codec.Decode(bytes.NewReader(enc), pv)
+			if err != nil {
+				return "ok " + hx.Hex(enc) + " err-dec"
+			}
+			return "ok " + hx.Hex(enc) + " dec=" + show(d)
+		})
+		run.Case("nb/"+kind, "nb "+kind+" "+mn+" "+mx, out)
+	}
+	for _, a := range pk.F64Bounds {
+		for _, b := range pk.F64Bounds {
+			emit("f64", fmt.Sprint(a), fmt.Sprint(b), brigadier.Float64ArgumentPropertyCodec,
+				&brigodier.Float64ArgumentType{Min: math.Float64frombits(a), Max: math.Float64frombits(b)},
+				func(d any) string {
+					t := d.(*brigodier.Float64ArgumentType)
+					return fmt.Sprintf("%d,%d", math.Float64bits(t.Min), math.Float64bits(t.Max))
+				})
+		}
+	}
+	for _, a := range pk.F32Bounds {
+		for _, b := range pk.F32Bounds {
+			emit("f32", fmt.Sprint(a), fmt.Sprint(b), brigadier.Float32ArgumentPropertyCodec,
+				&brigodier.Float32ArgumentType{Min: math.Float32frombits(a), Max: math.Float32frombits(b)},
+				func(d any) string {
+					t := d.(*brigodier.Float32ArgumentType)
+					return fmt.Sprintf("%d,%d", math.Float32bits(t.Min), math.Float32bits(t.Max))
+				})
+		}
+	}
+	for _, a := range pk.I64Bounds {
+		for _, b := range pk.I64Bounds {
+			emit("i64", fmt.Sprint(a), fmt.Sprint(b), brigadier.Int64ArgumentPropertyCodec, &brigodier.Int64ArgumentType{Min: a, Max: b},
+				func(d any) string { t := d.(*brigodier.Int64ArgumentType); return fmt.Sprintf("%d,%d", t.Min, t.Max) })
+		}
+	}
+	for _, a := range pk.I32Bounds {
+		for _, b := range pk.I32Bounds {
+			emit("i32", fmt.Sprint(a), fmt.Sprint(b), brigadier.Int32ArgumentPropertyCodec, &brigodier.Int32ArgumentType{Min: a, Max: b},
+				func(d any) string { t := d.(*brigodier.Int32ArgumentType); return fmt.Sprintf("%d,%d", t.Min, t.Max) })
+		}
+	}
+}
